@@ -16,6 +16,7 @@ import os
 
 from mc import cfgworld as W
 from mc import values as V
+from mc.values import D
 
 PROP = "C06"
 LEVEL = "model_checking"
@@ -38,6 +39,10 @@ def jobs(tier):
     for sh in b["shapes"]:
         for leaf in b["leaves"]:
             out.append({"name": "ops/%s/%s" % (sh, leaf), "kind": "ops", "shape": sh, "leaf": leaf, "depth": b["depth"], "tier": tier})
+    for leaf in (b["leaves"] if tier == "thorough" else ["int09", "str-regex-req", "list-int"]):
+        out.append({"name": "ops/cfglist2-v/%s" % leaf, "kind": "ops", "shape": "cfglist2-v", "leaf": leaf, "depth": b["depth"], "tier": tier})
+    for leaf in (["int09", "str-norm", "list-int", "dict-typed", "str-regex-req", "challenge", "bool"] if tier != "thorough" else b["leaves"]):
+        out.append({"name": "growth/%s" % leaf, "kind": "growth", "leaf": leaf, "tier": tier})
     for fmt in b["document_formats"]:
         for sh in (["nested", "cfglist"] if tier == "quick" else W.SHAPES):
             out.append({"name": "docs/%s/%s" % (fmt, sh), "kind": "docs", "fmt": fmt, "shape": sh, "tier": tier})
@@ -96,6 +101,9 @@ def run_job(job, ctx):
         elif single["kind"] == "docs":
             j = dict(single["jobparams_full"]); j["only"] = single["only"]
             _docs(j, ctx)
+        elif single["kind"] == "growth":
+            j = dict(single["jobparams_full"]); j["only"] = single["only"]
+            _growth(j, ctx)
         else:
             j = dict(single["jobparams_full"]); j["only"] = single["only"]
             _includes(j, ctx)
@@ -106,8 +114,72 @@ def run_job(job, ctx):
         ctx.sample({"shape": job["shape"], "leaf": job["leaf"], "states": n, "operations_per_state": nops})
     elif job["kind"] == "docs":
         _docs(job, ctx)
+    elif job["kind"] == "growth":
+        _growth(job, ctx)
     else:
         _includes(job, ctx)
+
+
+def _growth(job, ctx):
+    """the schema grows after the configuration was built (a leaf at the root / in an existing sub-schema / two levels
+    down / in a brand-new sub-schema); every rejected assignment that targets the late field, by attribute, item and
+    dotted path, and rejected maps / scalars assigned to the late sub-schema, must leave the configuration as it was"""
+    from mc.ref import fields as R
+    leaf = job["leaf"]
+    lspec, valid, invalid = W.catalogue()[leaf]
+    only = job.get("only")
+    base = W.shape("nested", "int09")
+    n = 0
+    for position in ("", "sub", "sub.deep", "newsub", "sub.newsub"):
+        attempts = []
+        for v in invalid:
+            attempts.append(("attr", position, v))
+            attempts.append(("item", position, v))
+            if position.endswith("newsub") and W._jsonlike(v):
+                attempts.append(("map", position, D(("late", v))))
+        if position.endswith("newsub"):
+            attempts += [("map", position, 5), ("map", position, [1]), ("map", position, D(("nosuchfield", 1)))]
+        for prior in ("fresh", "used"):
+            for route, pos, v in attempts:
+                n += 1
+                ident = [position, prior, route, json.dumps(v, sort_keys=True, default=repr)]
+                if only is not None and only != ident:
+                    continue
+                built = W.Built(base)
+                cfg = built.schema()
+                if prior == "used":
+                    cfg.a = 3
+                    cfg.sub.deep.e = 2
+                    cfg.to_tree()
+                sch = built.schema
+                for part in [x for x in position.split(".") if x]:
+                    sch = getattr(sch, part)
+                sch.late = R.mk_field(lspec)
+                before = W.snapshot(cfg, with_ids=True)
+                value = V.dec(v)
+                path = (position + "." if position else "") + "late"
+                ctx.transitions += 1
+                try:
+                    if route == "attr":
+                        setattr(W.chained(cfg, position) if position else cfg, "late", value)
+                    elif route == "item":
+                        cfg[path] = value
+                    else:
+                        owner = W.chained(cfg, position.rsplit(".", 1)[0]) if "." in position else cfg
+                        setattr(owner, position.rsplit(".", 1)[-1], value)
+                    outcome = None
+                except Exception as exc:  # noqa
+                    outcome = exc
+                ctx.case(("growth", leaf, position, prior, route, repr(v)), "growth:%s" % ("raised" if outcome is not None else "ok"), outcome is not None)
+                if outcome is None:
+                    continue
+                after = W.snapshot(cfg, with_ids=True)
+                if after != before:
+                    diffs = W.diff_paths(W.strip_ids(before), W.strip_ids(after))
+                    ctx.violation("C06|growth|%s|%s|%s" % (leaf, position or "root", route),
+                                  "the schema gained %s after the configuration was built; %s assignment of %s raised %r but the configuration changed at %s"
+                                  % (path, route, V.show(value, 40), outcome, diffs or "(identity)"), _case(job, ident))
+    ctx.sample({"growth": leaf, "attempts": n})
 
 
 def _case(job, only):
